@@ -121,6 +121,47 @@ def chunk_case(ctx, c, cx, ct, sched, workers, base=None, estimators=True):
     ctx.count(f"calib:{sched}:{workers}")
 
 
+def two_pass_case(ctx, rng, double, kind):
+    """the usual two-pass work flow on ONE lazily evaluated dataset: calibrate with a rough noise variance, then again with a refined,
+    intensity-dependent one (same kind of argument, other values) — every pass has to agree with the same pass on the in-memory data"""
+    import copy
+    import dask
+    c = fibre.make_case(rng, double=double, nx=rng.randint(9, 12), nt=rng.randint(2, 3), n_baths=2, n_stretch=3, nta=0, n_match=0,
+                        noise=0.004, var_kind=kind)
+    names = ["st", "ast"] + (["rst", "rast"] if double else [])
+    passes = []
+    for scale in (None, "refined"):
+        va = {}
+        for n in names:
+            v = np.array(c.var_mats[n], dtype=float)
+            if scale:
+                v = v * (0.3 + 1.7 * c.ds[n].values / c.ds[n].values.max())
+            va[n + "_var"] = v if kind == "array" else xr.DataArray(v, dims=("x", "time"), coords={"x": c.ds.x, "time": c.ds.time})
+        passes.append(va)
+    cx, ct = rng.randint(2, c.nx), rng.randint(1, c.nt)
+    lazy = c.ds.chunk({"x": cx, "time": ct})
+    desc = dict(calib.case_desc(c), sub="two passes on one lazy dataset", chunks=[cx, ct], variance=kind)
+    sched = rng.choice(["synchronous", "threads"])
+    for i, va in enumerate(passes):
+        m = copy.copy(c)
+        m.var_args = va
+        base, _ = calib.run_real(m)
+        d = copy.copy(c)
+        d.ds, d.var_args = lazy, va
+        with dask.config.set(scheduler=sched):
+            out, _ = calib.run_real(d)
+        if isinstance(base, tuple) or isinstance(out, tuple):
+            if isinstance(base, tuple) != isinstance(out, tuple):
+                ctx.fail(f"pass {i + 1}: in memory {'raised' if isinstance(base, tuple) else 'returned'}, dask-backed "
+                         f"{'raised' if isinstance(out, tuple) else 'returned'}", desc)
+            continue
+        bad = close(outs(base, c), outs(out, c))
+        if bad:
+            ctx.fail(f"pass {i + 1} on the same dask-backed dataset differs from the in-memory result: " + bad, desc)
+    ctx.case(sig=["two-pass", double, kind, cx, ct], nontrivial=True, sample=desc)
+    ctx.count(f"two-pass:{'double' if double else 'single'}:{kind}")
+
+
 def model_case(ctx, rng):
     """dask's chunking and per-block reductions vs the model, exact"""
     import dask.array as da
@@ -225,6 +266,9 @@ def run(ctx):
     reader_case(ctx)
     for _ in range(2 if ctx.quick else 8):
         shared_names_case(ctx, rng)
+    for double, kind in ([(False, "array"), (True, "dataarray")] if ctx.quick else
+                         [(False, "array"), (True, "dataarray"), (True, "array"), (False, "dataarray")] * 2):
+        two_pass_case(ctx, rng, double, kind)
     jobs = []
     for k in range(2 if ctx.quick else 12):
         jobs.append((k, rng.randrange(2**31)))
